@@ -1,6 +1,7 @@
 import Juniper.Driver.Basic
 import Juniper.Driver.C04
 import Juniper.Driver.C16
+import Juniper.Driver.C18
 /-! `driver <model>`: runs one executable model behind the line protocol. Core-only (no Mathlib).
 Registration: one `import` line above and one `[("name", handler)],` line below per model
 (this file is merged with git's union driver, so keep one entry per line). -/
@@ -9,6 +10,7 @@ open Juniper.Driver
 def handlers : List (String × Handler) := List.flatten [
   [("deque", Juniper.Driver.C04.handler)],
   [("cond", Juniper.Driver.C16.handler)],
+  [("tmap", Juniper.Driver.C18.mapHandler), ("watch", Juniper.Driver.C18.watchHandler), ("future", Juniper.Driver.C18.futHandler), ("lazy", Juniper.Driver.C18.lazyHandler)],
   []]
 
 def main (args : List String) : IO UInt32 := do
